@@ -19,6 +19,8 @@ func main() {
 	switch os.Args[1] {
 	case "verify":
 		cmdVerify(os.Args[2:])
+	case "sweep":
+		cmdSweep(os.Args[2:])
 	case "check":
 		cmdCheck(os.Args[2:])
 	default:
